@@ -23,19 +23,58 @@ NUMVARS = [
 ]
 
 
+FLAG_FALLBACK = ("def {ln} (self_flag : Bool) (on_para_eq_constraint : Option Bool) : Bool :=\n"
+                 "  match on_para_eq_constraint with\n  | none => self_flag\n  | some requested => requested\n")
+
+
+def flag_fragment(f, cls, ln):
+    import ast as _ast
+    tree = _ast.parse(open(os.path.join(common.REPO, f)).read())
+    fn = pytolean.find_def(tree, "generate_from_var", cls)
+    asg = [a for a in _ast.walk(fn) if isinstance(a, _ast.Assign) and len(a.targets) == 1 and _ast.unparse(a.targets[0]) == "on_para_eq_constraint"]
+    if len(asg) != 1:
+        raise pytolean.Untranslatable(f"{f}:{cls}.generate_from_var: expected exactly one assignment of on_para_eq_constraint, found {len(asg)}")
+    v = asg[0].value
+    ok = (isinstance(v, _ast.IfExp) and _ast.unparse(v.test) == "on_para_eq_constraint is None"
+          and _ast.unparse(v.body) == "self.on_para_eq_constraint" and _ast.unparse(v.orelse) == "on_para_eq_constraint")
+    if not ok:
+        raise pytolean.Untranslatable(f"{f}:{cls}.generate_from_var:{asg[0].lineno}: flag resolution is not "
+                                      f"`self.on_para_eq_constraint if on_para_eq_constraint is None else on_para_eq_constraint`: `{_ast.unparse(v)}`")
+    uses = [c_ for c_ in _ast.walk(fn) if isinstance(c_, _ast.keyword) and c_.arg == "on_para_eq_constraint"]
+    if not uses or any(_ast.unparse(u.value) != "on_para_eq_constraint" for u in uses):
+        raise pytolean.Untranslatable(f"{f}:{cls}.generate_from_var: the resolved flag is not what is handed on")
+    return (f"/-- {f}:{asg[0].lineno} `{cls}.generate_from_var`: `{_ast.unparse(asg[0])}` -/\n" + FLAG_FALLBACK.format(ln=ln))
+
+
 def translate(ctx):
-    """regenerate lean/QGen/C03.lean from the working tree of common.REPO; raises on untranslatable source"""
+    """regenerate lean/QGen/C03.lean from the working tree of common.REPO. A fragment that cannot be translated is reported as a
+    broken obligation (returned) and keeps its previous / expected text, so that the file stays complete and the driver still builds."""
+    path = os.path.join(common.LEAN, "QGen", "C03.lean")
+    problems = []
     parts = ["/-! GENERATED on every run by harness/c03.py:translate (harness/pytolean.py) from the Python sources of quara — do not edit.",
              "Python `int` is `Int`; `//`, `%`, `divmod` are `Int.fdiv` / `Int.fmod` (floor semantics). -/",
              "set_option linter.unusedVariables false", "namespace QGen.C03", ""]
+
+    def frag(name, fn, fallback=None):
+        try:
+            parts.append(fn())
+        except pytolean.Untranslatable as e:
+            problems.append(f"translator failed: Untranslatable: {e}")
+            old = pytolean.existing_def(path, name) or fallback
+            if old is None:
+                raise
+            parts.append("-- NOT regenerated on the last run (source not translatable): previous / expected definition kept\n" + old)
+
     for f, n in INDEX_FUNCS:
-        parts.append(pytolean.translate_function(os.path.join(common.REPO, OBJ, f), n, rel=OBJ + f))
+        frag(n, lambda f=f, n=n: pytolean.translate_function(os.path.join(common.REPO, OBJ, f), n, rel=OBJ + f))
     for f, cls, atoms, ln, ps in NUMVARS:
-        parts.append(pytolean.translate_flag_attr(os.path.join(common.REPO, TOMO, f), cls, "__init__", "_num_variables",
-                                                  "on_para_eq_constraint", atoms, ln, ps, rel=TOMO + f))
+        frag(ln, lambda f=f, cls=cls, atoms=atoms, ln=ln, ps=ps: pytolean.translate_flag_attr(
+            os.path.join(common.REPO, TOMO, f), cls, "__init__", "_num_variables", "on_para_eq_constraint", atoms, ln, ps, rel=TOMO + f))
+    for f, cls, ln in ((OBJ + "qoperation.py", "QOperation", "generate_from_var_flag"), (OBJ + "mprocess.py", "MProcess", "generate_from_var_flag_mprocess")):
+        frag(ln, lambda f=f, cls=cls, ln=ln: flag_fragment(f, cls, ln), FLAG_FALLBACK.format(ln=ln))
     parts.append("end QGen.C03")
-    pytolean.write_if_changed(os.path.join(common.LEAN, "QGen", "C03.lean"), "\n".join(parts) + "\n")
-    return []
+    pytolean.write_if_changed(path, "\n".join(parts) + "\n")
+    return problems
 
 
 # ----------------------------------------------------------------------------- real-code adaptors
@@ -279,12 +318,12 @@ def rand_vals(g, n):
 
 
 PARTIAL = [
-    "calc_gradient: proved as the derivative of var -> object for State (both flags) and Gate (stacked form, both flags; gate_gradient_onehot); "
-    "for POVM / mprocess with the flag on only the free block is a derivative (povm_gradient_free_block_partial) - the implied block changes by "
-    "-t e_{i mod d^2}, which the one-hot gradient ignores (witness povm_gradient_is_not_derivative_on_implied_block); no mprocess gradient theorem "
-    "(model gradMp + exhaustive correspondence and oracle per variable index)",
     "var_total_points_at is stated per type group; the offsets between the four groups are covered by total_local_roundtrip / "
     "local_total_roundtrip",
+    "calc_gradient is proved to be the indicator of the entry the generated index points at (all four types) and the exact derivative of "
+    "var -> stacked vector is proved for all four types and both flags; with the constraint built in the derivative of POVM / mprocess has an extra "
+    "-t term on the implied block (povm_stacked_derivative, mprocess_stacked_derivative) that the library's one-hot gradient does not contain "
+    "- an observation, not a C03 clause",
 ]
 
 
@@ -335,7 +374,7 @@ def correspondence(ctx):
                 return ge
             r = attempt(lambda: fl(gen().on_para_eq_constraint))
             add("generate_from_var/flag", (cfg, rf), r[1] if r[0] == "ok" else "err",
-                drv.ask("gen_flag", fl(flag), "n" if rf is None else fl(rf)), "text")
+                drv.ask("gen_flag", ty, fl(flag), "n" if rf is None else fl(rf)), "text")
             r = attempt(lambda: gen().to_stacked_vector())
             add("generate_from_var/object", (cfg, rf, var_e.tolist()), r, ask_v2o(drv, ty, c, var_e, eff))
             ctx.case(("genfromvar", cfg, rf), nontrivial=rf is not None and rf != flag)
@@ -596,6 +635,15 @@ def check_config(ctx, shape, ty, flag, m, salt, exhaustive=True):
             hot = np.zeros(ns); hot[pos] = 1.0
             if not eq(gr, hot):
                 ctx.violate(sig + "/gradient/one-hot", f"{shape} m={m}: calc_gradient({i}) is not one-hot at the entry of variable {i}", r2); return
+        # index conversions with numpy integers (indices produced by np.arange / np.argmax / np.where) are the same maps
+        for i, pos, _ in jac:
+            for it in (np.int64, np.int32):
+                a_np, pos_np = idx_v2o(ty, c, gen, it(i), flag)
+                a_py, _ = idx_v2o(ty, c, gen, i, flag)
+                back = idx_o2v(ty, c, gen, tuple(it(x) for x in a_py), flag)
+                if tuple(int(x) for x in a_np) != tuple(int(x) for x in a_py) or int(pos_np) != pos or int(back) != i:
+                    ctx.violate(sig + f"/index/numpy-integer", f"{shape} m={m}: var index {it.__name__}({i}) -> {tuple(int(x) for x in a_np)}, "
+                                f"python int {i} -> {tuple(int(x) for x in a_py)}; back {int(back)}", dict(rep, var_index=i, int_type=it.__name__)); return
         # the gradients as a caller holds them (all alive at once, a Jacobian): each is still the one-hot of its variable
         for i, pos, gobj in jac:
             hot = np.zeros(ns); hot[pos] = 1.0
@@ -615,6 +663,50 @@ def check_config(ctx, shape, ty, flag, m, salt, exhaustive=True):
             ctx.violate(sig + "/index/onto", f"{shape} m={m}: index map is not onto the object entries", rep); return
     except Exception as e:  # noqa
         ctx.violate(sig + "/raises", f"{shape} m={m}: {type(e).__name__}: {e}", rep)
+
+
+def check_config_loosened(ctx, shape, ty, m):
+    """the conversions do not depend on the global tolerance setting: with Settings.set_atol(1e-6) an object whose implied
+    block has small (1e-7) but non-zero entries is still reproduced from its variables"""
+    from quara.settings import Settings
+    c = csys(shape)
+    d = c.dim
+    n = d * d
+    g = ctx.npgen(("loosened", shape, ty, m))
+    ns = nstacked(ty, d, m)
+    flat = rand_vals(g, ns)
+    small = 1e-7 * (1.0 + np.abs(rand_vals(g, n)))
+    # make the object satisfy the built-in constraint with the implied block equal to `small`
+    if ty == "state":
+        return
+    if ty == "povm":
+        v = flat.reshape(m, n); tot = np.zeros(n); tot[0] = np.sqrt(d)
+        v[0] = tot - small - v[1: m - 1].sum(axis=0); v[m - 1] = tot - v[: m - 1].sum(axis=0)
+        flat = v.flatten()
+    elif ty == "gate":
+        return
+    else:
+        h = flat.reshape(m, n, n); e = np.zeros(n); e[0] = 1.0
+        h[0, 0, :] = e - small - h[1: m - 1, 0, :].sum(axis=0); h[m - 1, 0, :] = e - h[: m - 1, 0, :].sum(axis=0)
+        flat = h.flatten()
+    rep = {"kind": "loosened", "shape": shape, "type": ty, "m": m}
+    ctx.case(("loosened", shape, ty, m), nontrivial=True)
+    old = Settings.get_atol()
+    try:
+        Settings.set_atol(1e-6)
+        var = obj_to_var(ty, c, flat, m, True)
+        back = flat_of(ty, var_to_obj(ty, c, var, True))
+        st = var_to_stacked(ty, c, var, True)
+        gen = make_obj(ty, c, flat, m, True).generate_from_var(var, is_physicality_required=False).to_stacked_vector()
+    except Exception as e:  # noqa
+        ctx.violate(f"C03/{ty}/flag=on/settings-atol=1e-6/raises", f"{shape} m={m}: {type(e).__name__}: {e}", rep); return
+    finally:
+        Settings.set_atol(old)
+    ref = implied_reference(ty, d, m, flat)
+    if not (eq(back, ref) and eq(st, ref) and eq(gen, ref)):
+        bad = float(np.abs(np.asarray(back) - ref).max())
+        ctx.violate(f"C03/{ty}/flag=on/settings-atol=1e-6/obj->var->obj", f"{shape} m={m}: with Settings.set_atol(1e-6) the object rebuilt from its "
+                    f"variables differs from the object by {bad:.3g} (implied block entries of size 1e-7)", rep)
 
 
 def check_mix(ctx, t, salt):
@@ -663,6 +755,10 @@ def oracle(ctx, volume=1):
                 continue
             check_config(ctx, shape, ty, flag, m, salt, exhaustive=not (ctx.quick and big and salt > 0))
             ctx.count(f"oracle {ty} flag={flag}")
+    for shape in ("1qubit", "qutrit"):
+        for ty in ("povm", "mprocess"):
+            for m in (2, 3):
+                check_config_loosened(ctx, shape, ty, m)
     for t in range((10 if ctx.quick else 50) * volume):
         check_mix(ctx, t, 0)
 
@@ -683,6 +779,8 @@ def replay(ctx, data):
     before = len(ctx.violations)
     if r["kind"] == "config":
         check_config(ctx, r["shape"], r["type"], bool(r["flag"]), int(r["m"]), r["salt"])
+    elif r["kind"] == "loosened":
+        check_config_loosened(ctx, r["shape"], r["type"], int(r["m"]))
     else:
         ctx.tier = r.get("tier", ctx.tier); ctx.quick = ctx.tier == "quick"
         check_mix(ctx, r["t"], r["salt"])
